@@ -29,6 +29,8 @@ def record(seq, circular=True, id_="rec"):
     from Bio.Seq import Seq
     from Bio.SeqRecord import SeqRecord
     from moclo.record import CircularRecord
+    if circular and id_ is None:          # built in memory without identifiers (Biopython's placeholders)
+        return CircularRecord(Seq(seq))
     if circular:
         return CircularRecord(Seq(seq), id=id_, name=id_)
     return SeqRecord(Seq(seq), id=id_, name=id_, annotations={"topology": "linear"})
@@ -40,7 +42,7 @@ KEEP = []          # wrappers are kept alive for the duration of one event (cach
 def query(cls, rec):
     """All public typing queries of one class on one record, never raising."""
     from moclo import errors
-    res = {"valid": False, "exc": "", "up": [], "down": [], "tgt": [], "ph": [], "qexc": [], "qinv": True, "again": True}
+    res = {"valid": False, "exc": "", "up": [], "down": [], "tgt": [], "ph": [], "qexc": [], "qinv": True, "again": True, "tgtq": []}
     try:
         ent = cls(rec)
         KEEP.append(ent)
@@ -60,6 +62,12 @@ def query(cls, rec):
             x = guarded(getattr(ent, meth))
             res[key] = dna.enc(x.seq if hasattr(x, "seq") else x)
             res["qexc"].append("")
+            if key == "tgt" and hasattr(x, "features"):
+                # what the reported target says about itself: its feature table (types, places, qualifiers)
+                import json as _json
+                res["tgtq"] = sorted("%s|%s|%s" % (f.type, str(f.location), _json.dumps({k2: [str(v) for v in (vv if isinstance(vv, (list, tuple)) else [vv])]
+                                                                                              for k2, vv in sorted(f.qualifiers.items())}, sort_keys=True))
+                                     for f in x.features)
         except BaseException as ex:  # noqa
             res["qexc"].append(type(ex).__name__)
             if not isinstance(ex, errors.InvalidSequence):
